@@ -151,8 +151,23 @@ class Rig:
         self.last_read_ret = None
         orig_read = self.mem.read
 
-        def read_and_remember(*a, **k):
-            self.last_read_ret = orig_read(*a, **k)
+        self.elem_uid = {}
+
+        def read_and_remember(memory, *a, **k):
+            own = memory is not self.mgr and not hasattr(memory, 'uid')    # an element the code created itself
+            key = (id(memory), 'r')
+            keep = self.elem_uid.get(key)
+            if own:
+                self.elem_uid[key] = self.uid          # needed while the first request packet is sent
+            self.last_read_ret = orig_read(memory, *a, **k)
+            if own:
+                self.cur += [6, 1 if self.last_read_ret else 0]      # what read() returned to the element
+                if self.last_read_ret:
+                    self.uid += 1
+                elif keep is None:
+                    self.elem_uid.pop(key, None)
+                else:
+                    self.elem_uid[key] = keep
             return self.last_read_ret
         self.mem.read = read_and_remember
         self._register()
@@ -210,7 +225,15 @@ class Rig:
     def _uid_of(self, mem, kind):
         if mem is self.mgr:
             return self.mgr_uid[kind]
-        return mem.uid
+        if hasattr(mem, 'uid'):
+            return mem.uid
+        return self.elem_uid[(id(mem), kind)]      # an element the code created itself (c06_info.InfoRig)
+
+    def _do_other(self, ev):
+        raise ValueError(ev)
+
+    def _after_disc(self):
+        pass
 
     def _deck_manager(self):
         if self.mgr is None:
@@ -373,6 +396,7 @@ class Rig:
         self.frames = []
         self._new_frame(fr)
         self.last_raised = self.last_hung = False
+        self.last_exc = ''
         try:
             if ev[0] in ('R', 'W'):
                 self._issue(ev)
@@ -393,15 +417,17 @@ class Rig:
                         self.in_disc = False
                     self._register()       # _clear_state() replaces the Caller objects
                     self.mgr = None        # the memories are enumerated again after a reconnect: a new manager
+                    self._after_disc()
                     self.mgr_uid = {'r': None, 'w': None}
                 else:
-                    raise ValueError(ev)
+                    self._do_other(ev)
         except WouldBlock:
             self.cur += [8]
             self.last_hung = True
-        except Exception:
+        except Exception as e:
             self.cur += [7]
             self.last_raised = True
+            self.last_exc = '%s: %s' % (type(e).__name__, e)
         out = []
         for f in self.frames:
             lock = self.locked() if f['lock'] is None else f['lock']
